@@ -9,6 +9,16 @@ use tdverif::cells::{Elem, Elem40, Tok, Zst, A128, B1, B3, K32, W1K, W24, W4K, W
 use tdverif::util::silence_panics;
 
 fn main() {
+    // Everything runs on a thread with the DEFAULT stack size of spawned threads (2 MiB) - the size library users' worker and
+    // test threads have - rather than on the main thread's 8 MiB: a stack frame that grows with the element size is then an
+    // observable crash, as it is for them.
+    let h = std::thread::Builder::new().stack_size(2 << 20).spawn(real_main).expect("spawn");
+    if h.join().is_err() {
+        std::process::exit(101);
+    }
+}
+
+fn real_main() {
     let args: Vec<String> = std::env::args().collect();
     let path = &args[1];
     let mut elem = "elem".to_string();
